@@ -1,5 +1,6 @@
 (* C18 - debug and quiet options change what is printed, never what is simulated. *)
 From HclV Require Import Base Expr Disasm DisasmProofs Machine MachineSpec MachineProofs DumpSpec DumpProofs Build TableSpec TableProofs.
+From HclV Require TraceSpec TraceProofs.
 Open Scope string_scope.
 Open Scope N_scope.
 
@@ -89,3 +90,24 @@ Print Assumptions C18_table_total.
 Theorem C18_step_prints_table : stmt_step_prints_table.
 Proof. exact step_prints_table_holds. Qed.
 Print Assumptions C18_step_prints_table.
+
+(* ---- "the built-in component messages report the addresses, register numbers and data actually
+   used" (TraceSpec.v / TraceProofs.v): each message, read by a reader that never mentions the
+   printer, gives back exactly the quantities the action used *)
+Theorem C18_component_messages_report_what_was_used :
+  TraceSpec.stmt_read_memory_msg /\ TraceSpec.stmt_not_reading_msg /\ TraceSpec.stmt_write_memory_msg /\
+  TraceSpec.stmt_not_writing_msg /\ TraceSpec.stmt_read_reg_msg /\ TraceSpec.stmt_write_reg_msg /\ TraceSpec.stmt_assign_msg.
+Proof.
+    split; [exact TraceProofs.read_memory_msg_holds |].
+    split; [exact TraceProofs.not_reading_msg_holds |].
+    split; [exact TraceProofs.write_memory_msg_holds |].
+    split; [exact TraceProofs.not_writing_msg_holds |].
+    split; [exact TraceProofs.read_reg_msg_holds |].
+    split; [exact TraceProofs.write_reg_msg_holds |].
+    exact TraceProofs.assign_msg_holds.
+  Qed.
+Print Assumptions C18_component_messages_report_what_was_used.
+(* one message per scheduled action that has one, in schedule order *)
+Theorem C18_one_message_per_action : TraceSpec.stmt_cycle_messages.
+Proof. exact TraceProofs.cycle_messages_holds. Qed.
+Print Assumptions C18_one_message_per_action.
